@@ -172,3 +172,7 @@ mod tests {
         assert_eq!(result.ok_val(), Some(json!(true)));
     }
 }
+
+#[cfg(kani)]
+#[path = "/verif/kani/comparison.rs"]
+mod verif_kani;
